@@ -258,6 +258,11 @@ def _(v):
     ode_c, extra_c = v.call(get_odesys, rsys_b, cstr=True, SymbolicSys=FakeSymbolicSys)
     v.prove("with_a_feed_nothing_is_reported_as_conserved", ode_c.linear_invariants is None and ode_c.linear_invariant_names is None
             and extra_c["linear_dependencies"] is None and extra_c["max_euler_step_cb"] is None)
+    # the feed may also be given as the pair (feed-ratio key, {substance: feed-concentration key}) -- the form get_odesys itself reports
+    pair = ("fr", OrderedDict((k, "feed_" + k) for k in names))
+    ode_p, extra_p = v.call(get_odesys, rsys_b, cstr=pair, SymbolicSys=FakeSymbolicSys)
+    v.prove("with_a_feed_given_as_a_pair_nothing_is_reported_as_conserved", ode_p.linear_invariants is None and ode_p.linear_invariant_names is None
+            and extra_p["linear_dependencies"] is None and extra_p["max_euler_step_cb"] is None and extra_p["cstr_fr_fc"] == pair)
 
 
 @harness("C05", "composition_balance_vectors.follow_the_current_substance_order", functions=[RS + ":ReactionSystem.composition_balance_vectors", RS + ":ReactionSystem.sort_substances_inplace"],
@@ -381,3 +386,30 @@ def _(v):
         v.prove(label, ok, detail=repr(msg))
     balanced = ReactionSystem([Reaction({"Fe+3": 1, "e-": 1}, {"Fe+2": 1}), Reaction({"H2O2": 2}, {"H2O": 2, "O2": 1})], [F(k) for k in ("Fe+3", "e-", "Fe+2", "H2O2", "H2O", "O2")])
     v.prove("balanced_formula_defined_system_is_accepted", balanced.nr == 2)
+
+
+@harness("C05", "keys_are_not_names", functions=[CH + ":Reaction.composition_violation", RS + ":ReactionSystem.check_balance", RS + ":ReactionSystem.composition_balance_vectors"], kind="shape-bounded", samples=10)
+def _(v):
+    """substances registered under keys that differ from their names (a mapping {'water': Substance.from_formula('H2O'), ...}): the balance is taken
+    over the KEYS the reactions use; an unbalanced reaction is refused, a balanced one accepted, the vectors' columns are the keys' substances"""
+    from collections import OrderedDict
+    from chempy.chemistry import Reaction, Substance
+    from chempy.reactionsystem import ReactionSystem
+    subs = OrderedDict([("peroxide", Substance.from_formula("H2O2")), ("water", Substance.from_formula("H2O")), ("oxygen", Substance.from_formula("O2")), ("ferric", Substance.from_formula("Fe+3")),
+                        ("ferrous", Substance.from_formula("Fe+2"))])
+    a, b, c = v.int("a", lo=1, hi=4), v.int("b", lo=1, hi=4), v.int("c", lo=1, hi=4)
+    rxn = Reaction({"peroxide": a}, {"water": b, "oxygen": c}, checks=())
+    viol = v.call(rxn.composition_violation, subs)
+    keys = sorted({k for s in subs.values() for k in s.composition})
+    want = {1: 2 * b - 2 * a, 8: b + 2 * c - 2 * a, 26: 0, 0: 0}
+    v.prove("violation_per_element_by_key", SP.conj([v.eq(x, want[k]) for x, k in zip(viol, keys)]) and len(viol) == len(keys))
+    out = v.run(ReactionSystem, [rxn], subs)
+    balanced = SP.conj([a == b, a == 2 * c])
+    v.prove("accepted_iff_balanced", SP.iff(out.returned, balanced))
+    if not out.returned:
+        v.prove("refusal_is_ValueError", out.raised(ValueError))
+    redox = v.run(ReactionSystem, [Reaction({"ferric": 1}, {"ferrous": 1}, checks=())], subs)
+    v.prove("charge_only_imbalance_refused", redox.raised(ValueError))
+    ok = ReactionSystem([Reaction({"peroxide": 2}, {"water": 2, "oxygen": 1}, checks=())], subs)
+    B, ck = v.call(ok.composition_balance_vectors)
+    v.prove("vectors_columns_are_the_keyed_substances", list(ck) == [0, 1, 8, 26] and [list(r) for r in B] == [[0, 0, 0, 3, 2], [2, 2, 0, 0, 0], [2, 1, 2, 0, 0], [0, 0, 0, 1, 1]])
